@@ -31,7 +31,7 @@ fn name_k(k: usize, ty: Ty) -> Rec {
     }
 }
 
-const N_TYPES: usize = 14;
+const N_TYPES: usize = 16;
 fn type_k(k: usize) -> Ty {
     match k {
         0 => F32,
@@ -47,6 +47,8 @@ fn type_k(k: usize) -> Ty {
         10 => Ty::Scaled { min: -10, max: 10, scale: 0.0, offset: 1.0 },
         11 => Ty::Scaled { min: 0, max: 1, scale: f64::NAN, offset: 0.0 },
         12 => Ty::Int { min: i64::MIN, max: -1 },
+        13 => Ty::Scaled { min: 10, max: 9, scale: 0.5, offset: 0.0 },
+        14 => Ty::Scaled { min: i64::MAX, max: i64::MIN, scale: 1.0, offset: 0.0 },
         _ => Ty::Scaled { min: i64::MIN, max: i64::MAX, scale: 1.0, offset: 0.0 },
     }
 }
